@@ -318,3 +318,12 @@ claim(
     "abstract interpretation on concrete small volumes of free symbols against a pointwise padding / box-sum oracle; small-scope enumeration of the column grammar justified by the filter's equivalence classes; symbolic gather for the write-back",
     "DESIGN.md §5 C24",
 )
+
+claim(
+    "C33",
+    "other",
+    "Decides that one solver step commutes with unfolding on the repo's own code: for each axis as electric symmetry axis, and for two electric axes at once, with zero and with periodic transverse faces, the reduced state is a concrete small grid of free symbols (odd components sampled on the plane zero there), materials free symbols constant along the symmetry axis; `forward` on the reduced scene with the symmetry PEC wall, then unfold_fields, equals `forward` on the doubled scene started from unfold_fields of the same state, entry by entry as polynomials on every cell except the outermost layers of the mirrored half (2 per step; two steps at the thorough tier); tangential E and normal H still vanish on the plane afterwards; the co-located fields a detector touching the plane receives in the reduced scene equal the doubled scene's, and the repo's detector unfolding of the reduced record reproduces the doubled record on both sides. Holds for all field / material values on those grids; sources, full-tensor materials and round-off are not covered.",
+    TB + "; np.pad / roll / slicing models on concrete arrays; Yee staggering; parity tables (C32) and halo rule (C15) decided separately",
+    "abstract interpretation of the solver step and of the unfolding on concrete small grids of free symbols; entry-wise polynomial identity of the two compositions",
+    "DESIGN.md §5 C33",
+)
